@@ -1,5 +1,328 @@
 import SmtpV.Model.Client
 import SmtpV.Spec.ClientMon
-/-! # C15 (theorems follow) -/
+import SmtpV.Proofs.OneLine
+/-!
+# C15 — the client writes one command line per call and only negotiated parameters
+
+Model level (`Client.mailLine`, `Client.rcptLine`; tied to client.go by the `cconv` correspondence).
+The theorems quantify over EVERY argument value — addresses, option strings, times — hostile ones
+included.
+-/
 namespace SmtpV.Props.C15
+open SmtpV SmtpV.Text SmtpV.Xtext SmtpV.Client SmtpV.OneLine
+
+theorem NoNL_of_check (l : Bytes) (h : l.all (fun b => b != 10 && b != 13) = true) : NoNL l := by
+  intro b hb
+  have := List.all_eq_true.mp h b hb
+  simp only [Bool.and_eq_true, bne_iff_ne, ne_eq] at this
+  exact this
+
+theorem one_NoNL (b : Byte) (h : okB b) : NoNL [b] := NoNL_cons.mpr ⟨h, NoNL_nil⟩
+
+theorem padDec_NoNL (n : Int) (w : Nat) : NoNL (padDec n w) := by
+  unfold padDec
+  refine NoNL_append.mpr ⟨?_, natToDec_NoNL _⟩
+  intro b hb
+  have := List.eq_of_mem_replicate hb
+  subst this; decide
+
+theorem zoneText_NoNL (o : Int) : NoNL (zoneText o) := by
+  unfold zoneText
+  split
+  · exact one_NoNL 90 (by decide)
+  · refine NoNL_append.mpr ⟨NoNL_append.mpr ⟨NoNL_append.mpr ⟨?_, padDec_NoNL _ _⟩, one_NoNL 58 (by decide)⟩, padDec_NoNL _ _⟩
+    split
+    · exact one_NoNL 45 (by decide)
+    · exact one_NoNL 43 (by decide)
+
+theorem formatRFC3339_NoNL (u o : Int) : NoNL (formatRFC3339 u o) := by
+  have h45 : NoNL [45] := one_NoNL 45 (by decide)
+  have h58 : NoNL [58] := one_NoNL 58 (by decide)
+  have h84 : NoNL [84] := one_NoNL 84 (by decide)
+  simp only [formatRFC3339, NoNL_append, padDec_NoNL, zoneText_NoNL, h45, h58, h84, and_self]
+
+/-! ### every parameter, for every option value -/
+
+theorem bodyParam_NoNL (ext o p) (h : bodyParam ext o = some p) : NoNL p := by
+  unfold bodyParam at h
+  simp only [] at h
+  repeat' split at h
+  all_goals first
+    | (cases h; first | exact NoNL_nil | exact NoNL_of_check _ (by decide +kernel))
+    | cases h
+
+theorem sizeParam_NoNL (ext o) : NoNL (sizeParam ext o) := by
+  unfold sizeParam
+  split
+  · exact NoNL_append.mpr ⟨by exact NoNL_of_check _ (by decide +kernel), intToDec_NoNL _⟩
+  · exact NoNL_nil
+
+theorem requireTLSParam_NoNL (ext o p) (h : requireTLSParam ext o = some p) : NoNL p := by
+  unfold requireTLSParam at h
+  repeat' split at h
+  all_goals first
+    | (cases h; first | exact NoNL_nil | exact NoNL_of_check _ (by decide +kernel))
+    | cases h
+
+theorem utf8Param_NoNL (ext o p) (h : utf8Param ext o = some p) : NoNL p := by
+  unfold utf8Param at h
+  repeat' split at h
+  all_goals first
+    | (cases h; first | exact NoNL_nil | exact NoNL_of_check _ (by decide +kernel))
+    | cases h
+
+theorem retParam_NoNL (o p) (h : retParam o = some p) : NoNL p := by
+  unfold retParam at h
+  repeat' split at h
+  all_goals first
+    | (cases h; first | exact NoNL_nil | exact NoNL_of_check _ (by decide +kernel))
+    | cases h
+
+theorem envidParam_NoNL (o p) (h : envidParam o = some p) : NoNL p := by
+  unfold envidParam at h
+  split at h
+  · cases h; exact NoNL_nil
+  · split at h
+    · cases h
+    · cases h; exact NoNL_append.mpr ⟨by exact NoNL_of_check _ (by decide +kernel), encodeXtext_NoNL _⟩
+
+theorem dsnMailParams_NoNL (ext o p) (h : dsnMailParams ext o = some p) : NoNL p := by
+  unfold dsnMailParams at h
+  split at h
+  · split at h
+    · rename_i r e hr he
+      cases h
+      exact NoNL_append.mpr ⟨retParam_NoNL o r hr, envidParam_NoNL o e he⟩
+    · cases h
+  · cases h; exact NoNL_nil
+
+theorem authParam_NoNL (ext o) : NoNL (authParam ext o) := by
+  unfold authParam
+  split
+  · split
+    · split
+      · exact NoNL_of_check _ (by decide +kernel)
+      · exact NoNL_append.mpr ⟨by exact NoNL_of_check _ (by decide +kernel), encodeXtext_NoNL _⟩
+    · exact NoNL_nil
+  · exact NoNL_nil
+
+theorem mailParams_NoNL (ext o p) (h : mailParams ext o = some p) : NoNL p := by
+  unfold mailParams at h
+  split at h
+  · cases h
+  · rename_i b hb
+    have hbn := bodyParam_NoNL ext o b hb
+    split at h
+    · cases h; exact hbn
+    · rename_i o'
+      split at h
+      · rename_i t u d ht hu hd
+        cases h
+        exact NoNL_append.mpr ⟨NoNL_append.mpr ⟨NoNL_append.mpr ⟨NoNL_append.mpr ⟨NoNL_append.mpr
+          ⟨hbn, sizeParam_NoNL ext o'⟩, requireTLSParam_NoNL ext o' t ht⟩, utf8Param_NoNL ext o' u hu⟩,
+          dsnMailParams_NoNL ext o' d hd⟩, authParam_NoNL ext o'⟩
+      · cases h
+
+/-- **C15_mail_one_line.**  Whatever sender and options are given, the MAIL line that is written contains
+    neither CR nor LF: no argument value can introduce a second line. -/
+theorem C15_mail_one_line (ext : List (Bytes × Bytes)) (frm : Bytes) (o : Option MailOptions) (l : Bytes)
+    (h : mailLine ext frm o = some l) : NoNL l := by
+  unfold mailLine at h
+  split at h
+  · cases h
+  · rename_i hv
+    split at h
+    · cases h
+    · rename_i ps hps
+      cases h
+      exact NoNL_append.mpr ⟨NoNL_append.mpr ⟨NoNL_append.mpr ⟨by exact NoNL_of_check _ (by decide +kernel),
+        validLine_NoNL frm (by simpa using hv)⟩, by exact NoNL_of_check _ (by decide +kernel)⟩, mailParams_NoNL ext o ps hps⟩
+
+theorem intercalate_NoNL (vals : List Bytes) (h : ∀ v ∈ vals, NoNL v) : NoNL (List.intercalate [44] vals) := by
+  induction vals with
+  | nil => exact NoNL_nil
+  | cons v t ih =>
+    cases t with
+    | nil => simpa [List.intercalate] using h v (by simp)
+    | cons w t' =>
+      have := ih (fun x hx => h x (List.mem_cons_of_mem _ hx))
+      simp only [List.intercalate_cons_cons]
+      exact NoNL_append.mpr ⟨NoNL_append.mpr ⟨h v (by simp), one_NoNL 44 (by decide)⟩, this⟩
+
+theorem notifyParam_NoNL (o p) (h : notifyParam o = some p) : NoNL p := by
+  unfold notifyParam at h
+  split at h
+  · cases h; exact NoNL_nil
+  · split at h
+    · cases h
+    · rename_i hok
+      cases h
+      refine NoNL_append.mpr ⟨by exact NoNL_of_check _ (by decide +kernel), intercalate_NoNL _ ?_⟩
+      intro v hv
+      simp only [notifyOk, Bool.not_eq_true', Bool.not_eq_false, Bool.and_eq_true, List.all_eq_true, Bool.or_eq_true,
+        beq_iff_eq] at hok
+      rcases hok.1.1.2 v hv with ((e | e) | e) | e <;> rw [e] <;> exact NoNL_of_check _ (by decide +kernel)
+
+theorem orcptParam_NoNL (ext o p) (h : orcptParam ext o = some p) : NoNL p := by
+  unfold orcptParam at h
+  split at h
+  · cases h; exact NoNL_nil
+  · split at h
+    · split at h
+      · cases h
+      · cases h; exact NoNL_append.mpr ⟨by exact NoNL_of_check _ (by decide +kernel), encodeXtext_NoNL _⟩
+    · split at h
+      · cases h
+        refine NoNL_append.mpr ⟨by exact NoNL_of_check _ (by decide +kernel), ?_⟩
+        split
+        · exact encodeUTF8AddrUnitext_NoNL _
+        · exact encodeUTF8AddrXtext_NoNL _
+      · cases h
+
+theorem rrvsParam_NoNL (ext o) : NoNL (rrvsParam ext o) := by
+  unfold rrvsParam
+  split
+  · split
+    · exact NoNL_append.mpr ⟨by exact NoNL_of_check _ (by decide +kernel), formatRFC3339_NoNL _ _⟩
+    · exact NoNL_nil
+  · exact NoNL_nil
+
+theorem rcptParams_NoNL (ext o p) (h : rcptParams ext o = some p) : NoNL p := by
+  unfold rcptParams at h
+  split at h
+  · split at h
+    · rename_i n oc hn hoc
+      cases h
+      exact NoNL_append.mpr ⟨NoNL_append.mpr ⟨notifyParam_NoNL o n hn, orcptParam_NoNL ext o oc hoc⟩, rrvsParam_NoNL ext o⟩
+    · cases h
+  · cases h; exact rrvsParam_NoNL ext o
+
+/-- **C15_rcpt_one_line.**  The same for RCPT: recipient, NOTIFY, ORCPT of either type (through all three
+    encoders) and the RRVS time. -/
+theorem C15_rcpt_one_line (ext : List (Bytes × Bytes)) (to : Bytes) (o : Option RcptOptions) (l : Bytes)
+    (h : rcptLine ext to o = some l) : NoNL l := by
+  unfold rcptLine at h
+  split at h
+  · cases h
+  · rename_i hv
+    have hto : NoNL to := validLine_NoNL to (by simpa using hv)
+    have h0 : NoNL ("RCPT TO:<".b ++ to ++ ">".b) :=
+      NoNL_append.mpr ⟨NoNL_append.mpr ⟨by exact NoNL_of_check _ (by decide +kernel), hto⟩, by exact NoNL_of_check _ (by decide +kernel)⟩
+    split at h
+    · cases h; exact h0
+    · split at h
+      · cases h
+      · rename_i ps hps
+        cases h
+        exact NoNL_append.mpr ⟨h0, rcptParams_NoNL ext _ ps hps⟩
+
+/-- **C15_hostile_address_refused.**  An address containing CR or LF is a local error: no line at all. -/
+theorem C15_hostile_address_refused (ext : List (Bytes × Bytes)) (a : Bytes) (h : ¬ NoNL a) :
+    (∀ o, mailLine ext a o = none) ∧ (∀ o, rcptLine ext a o = none) := by
+  have hv : validLine a = false := by
+    cases hvl : validLine a with
+    | false => rfl
+    | true => exact absurd (validLine_NoNL a hvl) h
+  constructor <;> intro o <;> simp [mailLine, rcptLine, hv]
+
+/-! ### only negotiated parameters -/
+
+/-- **C15_no_ext_no_params.**  When the server's latest EHLO reply offered nothing, nothing but the address is
+    sent (or the call fails locally): no parameter is ever sent for an extension that was not offered. -/
+theorem C15_no_ext_no_params (a : Bytes) :
+    (∀ o l, mailLine [] a o = some l → l = "MAIL FROM:<".b ++ a ++ ">".b) ∧
+    (∀ o l, rcptLine [] a o = some l → l = "RCPT TO:<".b ++ a ++ ">".b) := by
+  have he : ∀ k, hasExt [] k = false := fun k => by simp [hasExt]
+  constructor
+  · intro o l h
+    unfold mailLine at h
+    split at h
+    · cases h
+    · split at h
+      · cases h
+      · rename_i ps hps
+        cases h
+        suffices ps = [] by simp [this]
+        unfold mailParams at hps
+        split at hps
+        · cases hps
+        · rename_i b hb
+          have hb' : b = [] := by
+            unfold bodyParam at hb
+            simp only [he, Bool.false_eq_true, if_false] at hb
+            repeat' split at hb
+            all_goals first
+              | (cases hb; rfl)
+              | cases hb
+          subst hb'
+          split at hps
+          · cases hps; rfl
+          · rename_i o'
+            split at hps
+            · rename_i t u d ht hu hd
+              cases hps
+              have : t = [] := by
+                unfold requireTLSParam at ht; simp only [he, Bool.false_eq_true, if_false] at ht
+                repeat' split at ht
+                all_goals first
+                  | (cases ht; rfl)
+                  | cases ht
+              have : u = [] := by
+                unfold utf8Param at hu; simp only [he, Bool.false_eq_true, if_false] at hu
+                repeat' split at hu
+                all_goals first
+                  | (cases hu; rfl)
+                  | cases hu
+              have : d = [] := by
+                unfold dsnMailParams at hd; simp only [he] at hd
+                simpa using hd.symm
+              have : sizeParam [] o' = [] := by simp [sizeParam, he]
+              have : authParam [] o' = [] := by
+                unfold authParam; simp only [he]; split <;> simp
+              simp [*]
+            · cases hps
+  · intro o l h
+    unfold rcptLine at h
+    split at h
+    · cases h
+    · split at h
+      · cases h; rfl
+      · split at h
+        · cases h
+        · rename_i ps hps
+          cases h
+          suffices ps = [] by simp [this]
+          have hr : ∀ o' : RcptOptions, rrvsParam [] o' = [] := by
+            intro o'; unfold rrvsParam; simp only [he]; split <;> simp
+          unfold rcptParams at hps
+          simp only [he, hr] at hps
+          simpa using hps.symm
+
+/-- **C15_unoffered_is_error.**  REQUIRETLS or SMTPUTF8 requested but not offered: a local error, nothing written. -/
+theorem C15_unoffered_is_error (ext : List (Bytes × Bytes)) (a : Bytes) (o : MailOptions)
+    (h : (o.requireTLS = true ∧ hasExt ext "REQUIRETLS" = false) ∨ (o.utf8 = true ∧ hasExt ext "SMTPUTF8" = false)) :
+    mailLine ext a (some o) = none := by
+  have hp : mailParams ext (some o) = none := by
+    unfold mailParams
+    split
+    · rfl
+    · rcases h with ⟨h1, h2⟩ | ⟨h1, h2⟩
+      · simp [requireTLSParam, h1, h2]
+      · have : utf8Param ext o = none := by simp [utf8Param, h1, h2]
+        simp only [this]
+        split <;> simp_all
+  unfold mailLine
+  split
+  · rfl
+  · simp [hp]
+
+/-! ### non-vacuity: a hostile ORCPT with CR LF and a command behind it, DSN and SMTPUTF8 offered -/
+
+example : rcptLine [("DSN".b, []), ("SMTPUTF8".b, [])] "r@x".b
+    (some { orcptType := "UTF-8".b, orcpt := "o@x\r\nRSET\r\nMAIL FROM:<evil@x>".b }) =
+    some "RCPT TO:<r@x> ORCPT=UTF-8;o@x\\x{0D}\\x{0A}RSET\\x{0D}\\x{0A}MAIL\\x{20}FROM:<evil@x>".b := by
+  decide +kernel
+
+example : mailLine [("DSN".b, [])] "s@x".b (some { envid := "a\nb".b }) = none := by decide +kernel
+
 end SmtpV.Props.C15
